@@ -8,6 +8,7 @@ G=${2:-*}
 for d in seeded/$G/; do
   n=$(basename $d)
   [ -f $d/meta.json ] || continue
+  grep -q '"neutralised_by_fix"' $d/meta.json && continue      # equivalent to HEAD since a fix commit
   props=$(/venv/bin/python -c "
 import json;m=json.load(open('$d/meta.json'));print(' '.join(m.get('detected_by') or [m['property']]))")
   echo "$n $props"
